@@ -27,8 +27,19 @@ def script_await(ctx, R):
 def state_fn(ctx, api_pred, what):
     sites = ctx.r.state_fns(api_pred)
     ctx.need(sites, f"{what} (fs API applied to the state path)")
-    # the function the site's code belongs to (not the caller whose view it was found spliced into)
-    fns = sorted({ctx.r.outer_fn(ctx.f.bodies[b.origin(bb)]).name for (b, bb, t) in sites})
+    # the function that applies the API to the state path: the one that obtains the path from the state path function (the site itself may sit in a
+    # helper spliced into it, and the function may in turn be spliced into its callers' views)
+    spf = {x.name for x in ctx.r.state_path_fns()}
+    fns = set()
+    for (b, bb, t) in sites:
+        l = operand_local(t["args"][0]) if t["args"] else None
+        got = [cb for cb, ct in b.calls() if callee_base(ct) in spf and ct.get("dest") is not None and l is not None and l in b.prov.flows_forward(ct["dest"]["local"])]
+        for cb in got:
+            fns.add(ctx.r.outer_fn(ctx.f.bodies[b.origin(cb)]).name)
+        if not got:
+            # the path was captured by this closure: it was obtained in the enclosing function
+            fns.add(ctx.r.outer_fn(ctx.f.bodies[b.name]).name)
+    fns = sorted(fns)
     return fns, sites
 
 
@@ -644,6 +655,24 @@ def delete_before_script(ctx):
               "the script can start while the old record is still in place (no `?`-checked awaited delete dominates the script): a crash during the script would leave the target recorded as done")
 
 
+@rule("C05.DELETE-ERRORS-PROPAGATE", ["C05"], """inside the state delete function the outcome of the file removal reaches the function's result: a failed removal is an error of the
+      delete (which the runner `?`-checks before starting the script), not a dropped value""", "K5", floor=1)
+def delete_errors_propagate(ctx):
+    dels, sites = state_delete_fns(ctx)
+    n = 0
+    for (b, bb, t) in sites:
+        raw = ctx.f.bodies[b.origin(bb)]
+        rbb = b.blocks[bb].get("orig_id", bb) if b.origin(bb) != b.name else bb
+        rt = raw.term(rbb)
+        if rt["k"] != "call" or rt.get("dest") is None:
+            continue
+        n += 1
+        fl = raw.prov.flows_forward(rt["dest"]["local"])
+        ctx.check(0 in fl, f"{short(ctx.r.outer_fn(raw).name)}/removal-result-returned", [site(raw, rbb)],
+                  "the result of removing the state file never reaches the delete function's result: when the removal fails the script still runs with the old record in place")
+    ctx.need(n >= 1, "removal of the state file")
+
+
 @rule("C05.SAVE-ONLY-COMPLETED", ["C05"], """the state is saved only in the Completed arm of the build report, and an Err of the script future is returned as Err""", "K1", floor=2)
 def save_only_completed(ctx):
     R = runner(ctx)
@@ -885,7 +914,7 @@ def cardinality_over_sets(ctx):
         if len(cmp_lens) < 2:
             ctx.ok(f"{short(b.name)}/no-cardinality-test", [b.loc()], "no cardinality comparison between two collections")
             continue
-        SETTY = r"(HashSet|HashMap|BTreeSet|BTreeMap)<"
+        SETTY = r"^(&(mut )?)*std::collections::(HashSet|HashMap|BTreeSet|BTreeMap)<"   # the collection itself, not an iterator/adaptor over sets
         def dedup(l, depth=0):
             """the collection in local l holds distinct elements: it is a set/map, or it was collected (element-preservingly) from one"""
             if l is None or depth > 12:
@@ -906,6 +935,40 @@ def cardinality_over_sets(ctx):
             return True
         bad = [t for t in cmp_lens if not re.search(r"(HashSet|HashMap|BTreeSet|BTreeMap)::<", callee_decl(t)) and not dedup(operand_local(t["args"][0]) if t["args"] else None)]
         ctx.check(not bad, f"{short(b.name)}/len-of-sets", [b.loc()], "the cardinality comparison counts a non-deduplicated collection (" + ", ".join(callee_decl(t)[:60] for t in bad) + "): overlapping resources make the counts differ for ever and the target is rebuilt on every run")
+
+
+@rule("C03.ABSENT-SIDE-EQUAL", ["C03"], """a side of the comparison that is not declared (no `output`) compares equal: the function comparing a recorded side with an optional declared side
+      returns true when nothing is declared - otherwise a target without outputs is rebuilt on every run""", "K2", floor=1)
+def absent_side_equal(ctx):
+    f = ctx.f
+    n = 0
+    for raw in f.user_bodies():
+        if not (raw.coroutine and raw.ret == "bool"):
+            continue
+        fn = ctx.r.fn_of(raw)
+        opt_params = [l.get("name") for l in fn.locals[1:fn.argc + 1] if re.search(r"^std::option::Option<&[\w:]*Resources>$", l["ty"])]
+        if not opt_params:
+            continue
+        b = raw
+        # the `None` edge of the declared-resources parameter (a captured variable of the async body)
+        for e in b.edges:
+            l = e.label
+            if not (l and l[0] == "variant" and set(l[2]) == {"None"} and l[3]):
+                continue
+            fields = place_fields(l[3])
+            o = edge_origin(b, e)
+            if not (any(nm in fields for nm in opt_params) or origin_matches(o, lambda x: x[0] == "field" and any(nm in x[1] for nm in opt_params))):
+                continue
+            n += 1
+            bad = []
+            for p in enumerate_paths(b):
+                if e not in p:
+                    continue
+                ro = ret_origins(b, p)
+                if not is_const_ret(ro, "true"):
+                    bad.append(p)
+            ctx.check(not bad, f"{short(fn.name)}/none-is-equal", [site(b, e.src)], "with nothing declared on this side the comparison does not return true: a target without (e.g.) outputs would never be skipped")
+    ctx.need(n >= 1, "comparison of a recorded side with an optional declared side")
 
 
 @rule("C03.DECODE-LIMIT-COVERS-FILE", ["C03", "C05"], """the size limit of the state decode is the length of the state file itself (not a smaller constant or a minimum): every state zinoma
